@@ -21,6 +21,9 @@ for n in sorted(os.listdir(os.path.join(V, "seeded"))):
         how = cls.group(1) if cls else ("no-failing-input-found" if "no-failing-input-found" in res else "")
     else:
         caught, how = ("n/a", res[len(n) + 2:][:80])
+    if os.path.exists(os.path.join(d, "note.txt")):
+        caught = "n/a"
+        how = open(os.path.join(d, "note.txt")).read().strip().replace("\n", " ").replace("|", "/")
     rows.append("| %s | %s | %s | %s |" % (n, summ, caught, how))
 table = "| seed | change (compiles, passes the existing tests) | quick check of its property | first reported class |\n|---|---|---|---|\n" + "\n".join(rows)
 p = os.path.join(V, "DESIGN.md")
